@@ -3,7 +3,7 @@ the implementation with the reference executor after every phase of every tick."
 import traceback, sys, os
 from fractions import Fraction as Fr
 from . import boot
-from .refmodel import (RefExecutor, Reject, unique_timeline, fr, LIFECYCLE, P, A, R, S, C, F, near)
+from .refmodel import (RefExecutor, Reject, Ambiguous, unique_timeline, fr, LIFECYCLE, P, A, R, S, C, F, near)
 
 boot.load()
 from eudoxia.workload.pipeline import Pipeline, Segment, Operator
@@ -337,7 +337,7 @@ class World:
             pred = m.step(msus, masg, self.timeline_of, obs_failed, obs_mem)
         except Reject as r:
             rej = r
-        except AmbiguousScenario:
+        except (AmbiguousScenario, Ambiguous):
             self.model_dead = True
             self.ambiguous = True
             return
